@@ -20,9 +20,10 @@ import (
 // urlCase: build the URL of one route from name/value pairs (C12).
 type urlCase struct {
 	Route string   `json:"route"`
-	Pairs []core.B `json:"pairs"`                   // name, value, name, value … (a trailing name without value is ignored)
-	Entry string   `json:"entry"`                   // router | context | leaf
-	Pre   []core.B `json:"earlier_build,omitempty"` // pairs of a build made on the same instance just before the judged one (its result must not influence it)
+	Pairs []core.B `json:"pairs"`                         // name, value, name, value … (a trailing name without value is ignored)
+	Entry string   `json:"entry"`                         // router | context | leaf
+	Own   core.B   `json:"served_request_path,omitempty"` // context entry: the build is made while THIS request (an instance of the named route itself) is being served; the request's own parameters are not arguments of the build
+	Pre   []core.B `json:"earlier_build,omitempty"`       // pairs of a build made on the same instance just before the judged one (its result must not influence it)
 }
 
 // nameCase: naming operations and look-ups.
@@ -148,6 +149,9 @@ func genURLCase(rng *rand.Rand) *urlCase {
 		}
 	}
 	c := &urlCase{Route: rt.Render(), Entry: []string{"router", "context", "leaf"}[rng.Intn(3)]}
+	if c.Entry == "context" && rng.Intn(2) == 0 {
+		c.Own = core.B("/" + strings.Join(gen.InstRoute(rng, rt, rng.Intn(2) == 0), "/"))
+	}
 	binds := bindsOf(rt)
 	for _, b := range binds {
 		if rng.Intn(4) != 0 {
@@ -269,10 +273,22 @@ func judgeURL(w *core.W, c *urlCase) {
 				w.Count("same-argument-slice-passed-twice")
 			} else {
 				rec := httptest.NewRecorder()
-				f.ServeHTTP(rec, &http.Request{Method: "GET", URL: &url.URL{Path: "/__probe"}, Header: http.Header{}})
+				target := "/__probe"
+				if len(c.Own) > 0 {
+					target = string(c.Own)
+					fromCtx = "<the handler of the named route did not run for its own instance " + target + ">"
+					w.Count("built-while-serving-the-named-route-itself")
+				}
+				f.ServeHTTP(rec, &http.Request{Method: "GET", URL: &url.URL{Path: target}, Header: http.Header{}})
 				got = fromCtx
+				if strings.HasPrefix(got, "<the handler") {
+					// the instance did not dispatch (hostile value shapes): build through the probe instead
+					target = "/__probe"
+					f.ServeHTTP(httptest.NewRecorder(), &http.Request{Method: "GET", URL: &url.URL{Path: target}, Header: http.Header{}})
+					got = fromCtx
+				}
 				// the handler keeps its argument slice between requests
-				f.ServeHTTP(httptest.NewRecorder(), &http.Request{Method: "GET", URL: &url.URL{Path: "/__probe"}, Header: http.Header{}})
+				f.ServeHTTP(httptest.NewRecorder(), &http.Request{Method: "GET", URL: &url.URL{Path: target}, Header: http.Header{}})
 				if fromCtx != got {
 					panic(fmt.Sprintf("the same argument slice passed by the next request builds %q, the first time %q", fromCtx, got))
 				}
